@@ -3,7 +3,7 @@
 //! its public getters after every step.  Direct oracles: cursor validity / exact motion (C09),
 //! set algebra of the selection (C10), accept output (C05).
 use skim::verif::{mark_new_run, Event, EventHandler, MatchedItem, Selection};
-use skim::{SkimItem, SkimOptions};
+use skim::{Selector, SkimItem, SkimOptions};
 use skv::canvas::Rec;
 use skv::*;
 use std::borrow::Cow;
@@ -33,6 +33,12 @@ enum Op {
     SelectRaw(u32, u32, u64), SelectMatched(u32, u32, u64),
 }
 
+/// the selector of the pre-select options: every k-th input position
+struct ModSel(u32);
+impl Selector for ModSel {
+    fn should_select(&self, index: usize, _item: &dyn SkimItem) -> bool { index as u32 % self.0 == 0 }
+}
+
 fn small_k(r: &mut Rng) -> i32 {
     match r.below(10) {
         0..=5 => r.range(0, 4) as i32,
@@ -48,8 +54,31 @@ fn gen_ops(r: &mut Rng, sel_heavy: bool) -> Vec<Op> {
     let mut next_id = 0u64;
     let mut next_rank = 0i32;
     let mut next_idx = 0u32;
+    // a scripted opening (an eighth of the histories): a long list, the cursor scrolled far up, the window shrunk,
+    // then the list replaced by a shorter one -- with or without a move / redraw in between
+    let scripted = r.chance(1, 8);
+    if scripted {
+        let h1 = 4 + r.below(10) as usize;
+        let n1 = 15 + r.below(50);
+        let mut mk = |cnt: u64, next_id: &mut u64, next_idx: &mut u32, next_rank: &mut i32| {
+            let mut b = Vec::new();
+            for _ in 0..cnt { *next_id += 1; *next_idx += 1; *next_rank += 1; b.push((*next_idx, *next_id, (*next_rank * 7919) % 100003)); }
+            Op::Append(b)
+        };
+        ops.push(mk(n1, &mut next_id, &mut next_idx, &mut next_rank));
+        ops.push(Op::Draw(h1));
+        ops.push(Op::Up(h1 as i32 - 2 + r.below(n1) as i32));
+        if r.chance(1, 3) { ops.push(Op::Down(r.below(4) as i32)); }
+        ops.push(Op::Draw(1 + r.below(h1 as u64) as usize));          // the window shrinks (or stays)
+        if r.chance(1, 4) { ops.push(Op::Up(r.below(3) as i32)); }
+        ops.push(Op::Clear);
+        if r.chance(1, 2) { next_idx = 0; }
+        ops.push(mk(1 + r.below(n1), &mut next_id, &mut next_idx, &mut next_rank));
+        if r.chance(1, 2) { ops.push(Op::Draw(1 + r.below(12) as usize)); }
+        ops.push(Op::Toggle);
+    }
     // most histories draw early; some never draw before moving (height unknown)
-    let early_draw = r.chance(3, 4);
+    let early_draw = r.chance(3, 4) && !scripted;
     for step in 0..n {
         if step == 1 && early_draw {
             ops.push(Op::Draw(1 + r.below(10) as usize));
@@ -135,9 +164,12 @@ fn main() {
         let multi = if focus == "C09" { r.chance(1, 2) } else { r.chance(4, 5) };
         let ops = gen_ops(&mut r, focus != "C09");
         let shape: Vec<String> = ops.iter().map(|o| match o { Op::Append(b) => format!("Append({})", b.len()), o => format!("{:?}", o) }).collect();
-        let input = format!("reverse={} multi={} ops=[{}]", reverse, multi, shape.join(", "));
+        // a selector (pre-selection) in a third of the histories: every item, every second, every third input position
+        let selmod: u32 = if r.chance(1, 3) { 1 + r.below(3) as u32 } else { 0 };
+        let input = format!("reverse={} multi={} selector={} ops=[{}]", reverse, multi, selmod, shape.join(", "));
         // --- run the implementation -----------------------------------------------------------
-        let opts = SkimOptions { multi, layout: if reverse { "reverse" } else { "" }, ..Default::default() };
+        let opts = SkimOptions { multi, layout: if reverse { "reverse" } else { "" },
+            selector: if selmod > 0 { Some(std::rc::Rc::new(ModSel(selmod))) } else { None }, ..Default::default() };
         let mut sel = Selection::with_options(&opts);
         let _ = mark_new_run("");
         let mut run_no: u32 = 0;
@@ -272,6 +304,25 @@ fn main() {
                     _ => {}
                 }
             }
+            // with a selector a result update may add arrivals the selector picks (which of them: the model's watermark rule)
+            if multi && selmod > 0 {
+                if let Op::Append(b) = op {
+                    let have: BTreeSet<(u32, u32)> = sel.verif_selected_keys().into_iter().collect();
+                    // the objects stored, in key order (a pre-selected arrival replaces the object stored under its key)
+                    let stored: Vec<u64> = o.out.as_ref().map(|x| x.1.clone()).unwrap_or_default();
+                    for (pos, key) in have.iter().enumerate() {
+                        let cand = b.iter().find(|(idx, _, _)| key.0 == run_no && *idx == key.1 && *idx % selmod == 0);
+                        if want_sel.contains_key(key) {
+                            if let (Some((_, id, _)), Some(got)) = (cand, stored.get(pos)) { if got == id { want_sel.insert(*key, *id); } }
+                            continue;
+                        }
+                        match cand {
+                            Some((_, id, _)) => { want_sel.insert(*key, *id); }
+                            None => { bad.entry("C10").or_insert(format!("after op #{} {:?}: key {:?} became selected; it is not an arrival the selector (every {}th position) picks", k, op, key, selmod)); }
+                        }
+                    }
+                }
+            }
             if o.nsel != want_sel.len() {
                 bad.entry("C10").or_insert(format!("after op #{} {:?}: {} selected, the set algebra gives {}", k, op, o.nsel, want_sel.len()));
             }
@@ -297,7 +348,7 @@ fn main() {
         if moves_checked >= 2 || (focus != "C09" && steps.len() >= 6) { distinct.insert(input.clone()); }
         if samples.len() < 3 { samples.push(J::s(&input)); }
         let body: Vec<String> = steps.iter().map(|(o, ob)| format!("({}, {})", coq_op(o), coq::opt(ob.as_ref().map(coq_obs)))).collect();
-        w.push(id, format!("{{| c_reverse := {}; c_multi := {}; c_ops := [{}] |}}", coq::b(reverse), coq::b(multi), body.join("; ")));
+        w.push(id, format!("{{| c_reverse := {}; c_multi := {}; c_selmod := {}; c_ops := [{}] |}}", coq::b(reverse), coq::b(multi), coq::n(selmod as u64), body.join("; ")));
     }
     let total = w.total;
     let shards = w.finish();
